@@ -432,7 +432,29 @@ class ExprMixin:
         return self.then(self.ev_seq(e.elts, st), lambda vals, s: [("val", s.alloc("list", {"__kind__": "list", "items": tuple(vals)}), s)])
 
     def ev_Set(self, e, st):
-        return self.then(self.ev_seq(e.elts, st), lambda vals, s: [("val", s.alloc("set", {"__kind__": "set", "items": tuple(vals)}), s)])
+        return self.then(self.ev_seq(e.elts, st), lambda vals, s: [("val", s.alloc("set", {"__kind__": "set", "items": self.set_items(vals, s)}), s)])
+
+    def set_items(self, vals, st):
+        """members of a set built from vals: equal values are ONE member.  Two members whose equality the path condition does not decide
+        would make the size of the set path-dependent: rejected"""
+        out = []
+        for v in vals:
+            dup = False
+            for w in out:
+                eq = simp(ops.values_equal(st, v, w))
+                if z3.is_true(eq):
+                    dup = True
+                    break
+                if not z3.is_false(eq):
+                    if not self.feasible(st, eq):
+                        continue
+                    if not self.feasible(st, z3.Not(eq)):
+                        dup = True
+                        break
+                    raise Unsupported("set with members that may or may not be equal")
+            if not dup:
+                out.append(v)
+        return tuple(out)
 
     def ev_Dict(self, e, st):
         if any(k is None for k in e.keys):
@@ -824,7 +846,7 @@ class ExprMixin:
                             raise Unsupported("dict comprehension with symbolic key")
                         ent[k] = (T, v)
                     return [("val", s.alloc("dict", {"__kind__": "dict", "e": ent, "open": False}), s)]
-                return [("val", s.alloc(kind, {"__kind__": kind, "items": tuple(a[0] for a in acc)}), s)]
+                return [("val", s.alloc(kind, {"__kind__": kind, "items": self.set_items([a[0] for a in acc], s) if kind == "set" else tuple(a[0] for a in acc)}), s)]
             outs = self.bind_target(gen.target, items[i], s)
             res = []
             for s1 in outs:
